@@ -343,9 +343,14 @@ def validOps (e : Env) : Disp → List Op → Prop
   | _, [] => True
   | d, o :: rest => o.valid e d ∧ validOps e (o.run e d).1 rest
 
-/-- `Display._set_mode`: fresh invisible pages and the set_mode signal (`set_page` follows as an op) -/
-def initDisp (npages attr : Nat) : Disp :=
-  { pages := fun _ => blankPage attr, npages := npages, vnum := 0 }
+/-- `Display._set_mode`: fresh invisible pages and the set_mode signal (`set_page` follows as an op).
+    `oldv` is the visible-page number left over from the PREVIOUS mode; it may be `≥ npages` (the old
+    mode had more pages).  `set_page` then runs `self.pages[self.vpagenum].set_visible(False)` on a page
+    that no longer exists: the `IndexError` is swallowed ("the page has been discarded") and the new
+    visible page must still be switched on.  In the model pages are a total function, the discarded
+    page is an invisible blank one, so `setVisible … false` on it is the same no-op. -/
+def initDisp (npages attr oldv : Nat) : Disp :=
+  { pages := fun _ => blankPage attr, npages := npages, vnum := oldv }
 
 def modeSignal (e : Env) : Signal := Signal.setMode e.g.H e.g.W e.g.th e.g.tw
 
